@@ -6,9 +6,9 @@ interpreter) and (iii) the Lean model `Ebv.ProcVar`.  The oracle is a reference 
 (big integers, `int.from_bytes`) over a layout recomputed independently of `allocate()`.
 
 History of the PacketVar objects is part of the input: devices may have run before in another sync group
-(`prior`), and one PacketVar object may be linked to two devices (`alias`).  On the unchanged tree the Python
-path's cached accessors then violate the property (known-finding classes `stale-start`, `shared-packetvar`,
-decided by `stale(case)` / `shared(case)`); the model reproduces that behaviour exactly."""
+(`prior`), and one PacketVar object may be linked to two devices (`alias`).  These scenarios (`stale(case)`,
+`shared(case)`) broke the Python path's cached accessors before the repair "fix: process variables kept stale
+offsets when a device changed its sync group"; they are ordinary cases now and must pass the oracle."""
 import struct
 
 from .. import interp, progs
@@ -24,8 +24,8 @@ THEOREMS = [
     "Ebv.C19.paths_agree_get_bit", "Ebv.C19.paths_agree_test", "Ebv.C19.paths_agree_set_bit",
     "Ebv.C19.py_roundtrip", "Ebv.C19.prog_roundtrip", "Ebv.C19.bit_roundtrip",
     "Ebv.C19.step_agree", "Ebv.C19.run_agree", "Ebv.C19.rel_init",
-    "Ebv.C19.run_agree_partial", "Ebv.C19.run_agree_full_refuted", "Ebv.C19.run_agree_full_refuted_shared",
-    "Ebv.C19.stale_start_writes_foreign_byte", "Ebv.C19.consistent_fresh",
+    "Ebv.C19.run_agree_full", "Ebv.C19.run_agree_full_old_refuted", "Ebv.C19.run_agree_full_old_refuted_shared",
+    "Ebv.C19.stale_start_old_vs_new", "Ebv.C19.shared_new_ok",
     "Ebv.C19.prog_addr_in_payload", "Ebv.C19.resolve_packet", "Ebv.C19.resolve_process", "Ebv.C19.width_table",
 ]
 TRUSTED = ["hand-written model Ebv.ProcVar of PacketVar.get/set (Python path) and of the code Memory.calculate/_set emit for "
@@ -36,8 +36,8 @@ ASSUMPTIONS = ["values written are representable in the destination format (othe
                "truncates: outside the property); bit numbers 0..7; formats B H I Q b h i q",
                "output enabled (wkc_errors != 0, working counters as expected) and frame long enough, else the program leaves the frame alone (C21)",
                "pdo_assign is what allocate() computes (C18); the harness re-derives the layout independently and requires equality",
-               "known findings (findings/C19.json): accessors cached on the PacketVar object keep the start of the first sync group "
-               "(stale-start) and are bound to the first device (shared-packetvar); theorems exclude them by Consistent / NoSharing",
+               "a cached accessor is modelled as (device, pdo_assign of the terminal it was built under); `pdo_assign is not assign` as "
+               "inequality of that assignment (an equal assignment gives the same start); one PacketVar object = one terminal variable",
                "DeviceVars hold values of their own format; a Struct linked directly to a TerminalVar cannot be put into a sync group "
                "(Device.get_terminals needs .sm) and assigning to a Struct member only shadows the descriptor: not exercised"]
 RULE = ("history: fresh objects (~80%), devices that ran before in a sync group of their own (~15%), a PacketVar object linked to two "
@@ -148,7 +148,7 @@ def accessed(case):
 
 
 def stale(case):
-    """known-finding class `stale-start`: some device ran before in a sync group that gave one of the variables it
+    """history class `stale-start` (former finding): some device ran before in a sync group that gave one of the variables it
     accesses another start than the present group does"""
     if not case.get("prior"):
         return False
@@ -158,7 +158,7 @@ def stale(case):
 
 
 def shared(case):
-    """known-finding class `shared-packetvar`: one PacketVar object is linked to TerminalVars of two devices"""
+    """history class `shared-packetvar` (former finding): one PacketVar object is linked to TerminalVars of two devices"""
     return any(v.get("alias") is not None and case["vars"][v["alias"]]["dev"] != v["dev"] for v in case["vars"])
 
 
@@ -323,26 +323,25 @@ def check_one(ctx, impl, case):
         psg = S["prior"]["sg"]
         real = {(ti, sm.value): off for ti, t in enumerate(S["terms"]) if t in psg.pdo_assign for sm, off in psg.pdo_assign[t].items()}
         ctx.require(real == pl["regions"], "earlier group: terminal regions differ from the frame layout", case, f"{real} vs {pl['regions']}", "layout")
-    known = "stale-start" if stale(case) else "shared-packetvar" if shared(case) else None
     if ref is not None:
         want, wvals, own = ref
         obs = f"python={pyout if isinstance(pyout, str) else pyout.hex()} program={fastout[14:].hex()} want={want.hex()} values py={pyvals} prog={fastvals} want={wvals}"
-        ctx.require(pyout == want, "Python path: frame after the statements is not 'only own bytes/bit written with the value'", case, obs, known or "py-frame")
-        ctx.require(pyvals == wvals, "Python path: value read is not the variable's own bytes/bit", case, obs, known or "py-value")
+        ctx.require(pyout == want, "Python path: frame after the statements is not 'only own bytes/bit written with the value'", case, obs, "py-frame")
+        ctx.require(pyvals == wvals, "Python path: value read is not the variable's own bytes/bit", case, obs, "py-value")
         ctx.require(r0 == 3 and errs == 1 and fastout[:14] == hdr, "program: not transmitted / working counter error / Ethernet header touched", case,
                     f"r0={r0} wkc_errors={errs} hdr={fastout[:14].hex()}", "prog-run")
         ctx.require(fastout[14:] == want, "program path: frame after the statements is not 'only own bytes/bit written with the value'", case, obs, "prog-frame")
         ctx.require(fastvals == wvals, "program path: value read is not the variable's own bytes/bit", case, obs, "prog-value")
-        ctx.require(pyout == fastout[14:] and pyvals == fastvals, "the two paths leave different frames / values", case, obs, known or "paths-differ")
+        ctx.require(pyout == fastout[14:] and pyvals == fastvals, "the two paths leave different frames / values", case, obs, "paths-differ")
         wreads = [(want[s] >> r[2]) & 1 if isinstance(r[2], int) else
                   int.from_bytes(want[s:s + width(r[2])], "little", signed=signed(r[2])) for s, r in zip(st, lay["res"])]
         ctx.require(pyreads == wreads and fastreads == wreads, "Python get of a variable on the final frame is not its own bytes/bit "
-                    "(slow group / fast group's received frame)", case, f"slow={pyreads} fast={fastreads} want={wreads}", known or "py-read")
+                    "(slow group / fast group's received frame)", case, f"slow={pyreads} fast={fastreads} want={wreads}", "py-read")
         if not isinstance(pyout, str):
             for nm, before, after in (("python", pyframe, pyout), ("program", pyframe, fastout[14:])):
                 stray = [k for k in range(len(before)) if (before[k] ^ after[k]) & ~own.get(k, 0) & 0xff]
                 ctx.require(not stray, f"{nm} path changed bytes/bits that belong to no written variable", case, f"offsets {stray}",
-                            (known if nm == "python" else None) or "own-bytes")
+                            "own-bytes")
     changed = ref is not None and (ref[0] != pyframe or any(o["op"] == "get" for o in case["ops"]))
     kinds = sorted(opkind(case, lay, o) for o in case["ops"])
     return (fmt_line(real_st, [a for _, a in real_fa], pyout, pyvals, pyreads, fastout, fastvals, fastreads), pyframe, S["prior"],
@@ -639,11 +638,10 @@ LEVEL_TEXT = ("Lean 4 proof over a hand-written model of both paths: for all fra
               "width), both sets and var-to-var copies leave the same frame, and values round-trip on each format's range; offsets resolve to "
               "pdo_assign + position (+ Struct offset) and + ETHERNET_HEADER (regenerated) for the program; run_agree: for every list of "
               "statements of a device (var/bit = var/bit/DeviceVar/constant, DeviceVar = var/bit) the program path leaves exactly the frame "
-              "and DeviceVar values of the Python path as _start of the present group defines it (run_agree) and of the real Python path with "
-              "its accessors cached on the PacketVar objects whenever no object is shared between devices and every cached accessor was "
-              "built under the present layout (run_agree_partial); the full statement (any history of the objects) is refuted on two "
-              "witnesses: a start cached in an earlier sync group makes `self.out = 1` write a foreign byte, a second device trips the "
-              "assertion (run_agree_full_refuted, ..._shared). Tie: three-way exact correspondence "
+              "and DeviceVar values of the Python path as _start of the present group defines it (run_agree), and of the real Python path with "
+              "its accessors cached on the PacketVar objects whatever is cached there (earlier sync groups, objects linked to several "
+              "devices): run_agree_full, no hypothesis on the history. The caching before the repair commit is kept as bindOld and refuted "
+              "on the two former witnesses (run_agree_full_old_refuted, ..._shared; stale_start_old_vs_new, shared_new_ok). Tie: three-way exact correspondence "
               "(real Python path, real bytecode re-assembled every run and interpreted, model) on random terminals / PDO maps / devices.")
 LEVEL_NOTE = ("trusted: Lean kernel + standard axioms; hand model validated by differential execution (not verified against the bytecode); "
               "interpreter semantics; unrepresentable values, bit numbers > 7, direct Struct links are outside the property")
